@@ -59,6 +59,8 @@ static br_ssl_session_cache_lru cc;
 static unsigned char key[32];
 static ent pre[GSZ], post[GSZ], want[GSZ];
 static unsigned pre_order[GSZ], post_order[GSZ], want_order[GSZ];
+/* which case of the operation this run is (witness points are raised at the very end) */
+static int w_0, w_1, w_2, w_3, w_4, w_5, w_6, w_7, w_8;
 
 /* masked-ID byte positions that are symbolic (others are 0) */
 static int
@@ -206,18 +208,18 @@ main(void)
 #if NENT == CAP && CAP >= 3
 		for (unsigned e = 0; e < CAP; e++) {
 			if (e == slot && pre[e].left != ADDR_NULL && pre[e].right != ADDR_NULL) {
-				WITNESS_POINT("save evicts a tree node that has two children");
+				w_0 = 1;
 			}
 		}
 #endif
 #if NENT == CAP && CAP >= 1
-		WITNESS_POINT("save into a full cache (eviction)");
+		w_1 = 1;
 #elif CAP >= 1
-		WITNESS_POINT("save into a fresh slot");
+		w_2 = 1;
 #endif
 	} else {
 #if CAP == 0 || NENT > 0
-		WITNESS_POINT("save rejected: no room at all, or ID still held");
+		w_3 = 1;
 #endif
 	}
 #elif OPK == 1
@@ -253,18 +255,18 @@ main(void)
 			}
 			want_order[0] = match;
 #if NENT > 0
-			WITNESS_POINT("load hit");
+			w_4 = 1;
 #endif
 #if NENT > 1
 			if (mpos > 0) {
-				WITNESS_POINT("load hit on an entry that is not the most recently used");
+				w_5 = 1;
 			}
 #endif
 		} else {
 			CHECK(r == 0, "load fails when no enabled entry holds the ID");
 			CHECK(p.version == p0.version && p.cipher_suite == p0.cipher_suite,
 				"failed load leaves params untouched");
-			WITNESS_POINT("load miss");
+			w_6 = 1;
 		}
 	}
 #else
@@ -275,10 +277,10 @@ main(void)
 	}
 	if (match != CAP) {
 #if NENT > 0
-		WITNESS_POINT("forget of a held ID");
+		w_7 = 1;
 #endif
 	} else {
-		WITNESS_POINT("forget of an unknown ID");
+		w_8 = 1;
 	}
 #endif
 
@@ -325,6 +327,32 @@ main(void)
 	}
 	CHECK(c17_hmac_bad == 0 && c17_drbg_calls == 0,
 		"mask_id drives the HMAC seam as documented; no re-keying");
+#if OPK == 0
+#if NENT == CAP && CAP >= 3
+	if (w_0) { WITNESS_POINT("save evicts a tree node that has two children"); }
+#endif
+#if NENT == CAP && CAP >= 1
+	if (w_1) { WITNESS_POINT("save into a full cache (eviction)"); }
+#elif CAP >= 1
+	if (w_2) { WITNESS_POINT("save into a fresh slot"); }
+#endif
+#if CAP == 0 || NENT > 0
+	if (w_3) { WITNESS_POINT("save rejected: no room at all, or ID still held"); }
+#endif
+#elif OPK == 1
+#if NENT > 0
+	if (w_4) { WITNESS_POINT("load hit"); }
+#endif
+#if NENT > 1
+	if (w_5) { WITNESS_POINT("load hit on an entry that is not the most recently used"); }
+#endif
+	if (w_6) { WITNESS_POINT("load miss"); }
+#else
+#if NENT > 0
+	if (w_7) { WITNESS_POINT("forget of a held ID"); }
+#endif
+	if (w_8) { WITNESS_POINT("forget of an unknown ID"); }
+#endif
 	WITNESS_POINT("operation completes from some valid state");
 	return 0;
 }
